@@ -217,6 +217,7 @@ type Contracts struct {
 	Lemmas      []*Lemma
 	GhostFields map[string]*GhostField // "pkg.Type.$name"
 	TypeInvs    []*TypeInv
+	GlobalInvs  map[string][]*Clause // package -> facts about package-level variables that no function in scope assigns
 	Files       []string
 	Digest      string
 }
@@ -778,7 +779,7 @@ var clauseKeywords = map[string]bool{
 	"invariant": true, "ghost": true, "step": true, "exit": true, "func": true, "spec": true,
 	"lemma": true, "axiom": true, "field": true, "type": true, "noreturn": true, "allocates": true,
 	"trigger": true, "params": true, "opaque": true, "havocs": true, "maypanic": true,
-	"channel": true, "free": true, "functype": true, "ghostvar": true, "package": true, "private": true, "template": true, "framed": true, "notemplate": true,
+	"channel": true, "free": true, "functype": true, "ghostvar": true, "package": true, "private": true, "template": true, "framed": true, "notemplate": true, "globalinv": true,
 }
 
 type rawLine struct {
@@ -1063,6 +1064,17 @@ func (C *Contracts) parseStatements(pkg, path string, stmts []rawLine) (err erro
 			default:
 				return cerr(st, "expected: channel <type> nonnil | channel <type> invariant <expr over v>")
 			}
+		case "globalinv":
+			// globalinv <expr over package-level variables>: assumed at the entry of every function of the package;
+			// the variables it names must not be assigned by any function in scope (checked syntactically)
+			e, err := parseExprString(rest)
+			if err != nil {
+				return cerr(st, "%v", err)
+			}
+			if C.GlobalInvs == nil {
+				C.GlobalInvs = map[string][]*Clause{}
+			}
+			C.GlobalInvs[pkg] = append(C.GlobalInvs[pkg], &Clause{Kind: "globalinv", E: e, Text: rest, Line: st.line})
 		case "ghostvar":
 			f := strings.Fields(rest)
 			if len(f) < 2 || !strings.HasPrefix(f[0], "$") {
